@@ -43,6 +43,7 @@ func init() {
 			ruleTightGuards(c, B, func(n string) bool { return strings.HasPrefix(n, "plenccore.") })
 			c.Floor("X.tightguard", 2)
 			ruleVarintDelegation(c)
+			ruleVarSize(c)
 			ruleTagFormat(c)
 			ruleWireConsts(c)
 		},
